@@ -424,7 +424,9 @@ func objectDefineOwnProperty(obj *object, name string, descriptor property, thro
 		// (Maybe put into switch ...)
 		mode0 := prop.mode
 		if mode1&0o200 != 0 {
-			if descriptor.isDataDescriptor() {
+			if _, isData := value1.(Value); isData && isDataDescriptor {
+				// "writable" is missing from the descriptor and the property
+				// stays a data property: keep its current setting (8.12.9 step 12)
 				mode1 &= ^0o200 // Turn off "writable" missing
 				mode1 |= (mode0 & 0o100)
 			}
